@@ -120,6 +120,13 @@ class Gen:
         if c < 0.94:
             self.features.add('genexp')
             x = self.fresh('g')
+            k = r.random()
+            if k < 0.25:
+                # lone generator argument followed by further arguments: the parentheses are mandatory
+                self.features.add('genexp-arg-with-keywords')
+                form = r.choice(['max(({g}), default=0)', 'sum(({g}), 1)', 'min(({g}), default=0, key=lambda q: -q)',
+                                 'len(sorted(({g}), reverse=True))', 'max(0, *({g}))', 'sum(({g}), **{{}})'])
+                return form.format(g=f'{x} * 2 for {x} in {self.list_expr(sc, d+1)}')
             return f'sum({x} * 2 for {x} in {self.list_expr(sc, d+1)})'
         if c < 0.97:
             fs = self.callable_funcs(sc)
@@ -436,9 +443,19 @@ class Gen:
         elif c < 0.7:
             self.emit(ind, f'{n} = lambda {a}: [{a} + t for t in {self.list_expr(sc.nested())}]')
             self.emit(ind, f'print({n}({self.int_expr(sc)}))')
-        else:
+        elif c < 0.85:
             self.emit(ind, f'{n} = lambda {a}={self.int_expr(sc)}, /: (lambda: {a} * 2)()')
             self.emit(ind, f'print({n}(), {n}(3))')
+        else:
+            # parameters that shadow the very names their defaults read (positional and keyword-only)
+            outer = [v for v in sc.visible(INT) if v not in sc.protected]
+            if len(outer) < 2 or sc.kind == 'class':
+                return self.s_assign(sc, ind, depth)
+            self.features.add('lambda-shadowing-defaults')
+            v1, v2 = self.r.sample(outer, 2)
+            sc.used.update((v1, v2))
+            self.emit(ind, f'{n} = lambda {a}, {v1}={v1}, *, {v2}={v2} + 1: ({a}, {v1}, {v2})')
+            self.emit(ind, f'print({n}(0), {n}(1, 2, {v2}=3))')
 
     def s_scopechain(self, sc, ind, depth):
         """A chain of 2-4 nested functions that all talk about one module-level name: each level binds it
